@@ -14,7 +14,7 @@
 EXTENDS Json, IOUtils, TLC, Naturals, Sequences, FiniteSets
 Rec == ndJsonDeserialize(IOEnv.TRACE)
 VARIABLES l, tbl, cache, ok, calls
-BM == INSTANCE BddMachine WITH NV <- Rec[1].nv, Ord <- Rec[1].ord, Slots <- 0, MaxNodes <- 0, MaxCache <- 0, Ops <- {},
+BM == INSTANCE BddMachine WITH NV <- Rec[1].nv, Ord <- Rec[1].ord, Slots <- 0, MaxNodes <- 0, MaxCache <- 0, Ops <- {}, Cnfs <- {},
                                GetIgnoresCompl <- FALSE, GetIgnoresKey <- FALSE
 
 Run(e, m) ==
@@ -27,6 +27,7 @@ Run(e, m) ==
     [] e.op = "cond" -> BM!Condition(m, a[1], e.v, e.b)
     [] e.op = "exists" -> BM!ExistsM(m, a[1], e.v)
     [] e.op = "compose" -> BM!ComposeM(m, a[1], e.v, a[2])
+    [] e.op = "cnf" -> BM!CompileCnfM(m, e.cnf)
 Expected(e) ==
   LET a == e.args
       D(i) == BM!Den(a[i]) IN
@@ -38,6 +39,7 @@ Expected(e) ==
     [] e.op = "cond" -> BM!SCond(D(1), e.v, e.b)
     [] e.op = "exists" -> BM!SExists(D(1), e.v)
     [] e.op = "compose" -> BM!SExists(BM!SIff(BM!SLit(e.v), D(2)) \cap D(1), e.v)
+    [] e.op = "cnf" -> BM!SCnf(e.cnf)
 
 Init == l = 2 /\ tbl = {} /\ cache = {} /\ ok = TRUE /\ calls = 0
 Reset(e) == /\ tbl' = {<<0, v, BM!F, BM!T>> : v \in 0 .. (Rec[1].nv - 1)}
